@@ -4,7 +4,7 @@ import numpy as np
 import impl, gen, evalutil as E
 from props.c10 import summ_equal
 
-RULE = ("groups with 10-32 widely spread labels on uint32 maps; signed semantic input with negative labels (must be rejected); label-map pairs with 2-6 semantic/instance labels, labels of different groups adjacent and overlapping, arrays "
+RULE = ("merge groups that are also single-instance groups; groups whose label list has a non-ascending set-iteration order with foreign labels in between; groups with 10-32 widely spread labels on uint32 maps; signed semantic input with negative labels (must be rejected); label-map pairs with 2-6 semantic/instance labels, labels of different groups adjacent and overlapping, arrays "
         "with and without background x random partitions of the label set into 1-4 named groups (plain, merge, "
         "single-instance; names with upper case, spaces, '-', '_') x labels outside every group (must be rejected) x "
         "input types x decision metric; each group's result compared with an ungrouped evaluation of the restricted "
@@ -23,10 +23,10 @@ def rand_groups(rng, labels):
     names = rng.sample(NAMES, k)
     gs = []
     for n, p in zip(names, parts):
-        kind = rng.choice(["plain", "plain", "merge", "single"])
-        if kind == "single":
+        kind = rng.choice(["plain", "plain", "merge", "single", "merge+single"])
+        if kind in ("single", "merge+single"):
             p = p[:1]
-        gs.append({"name": n, "labels": sorted(p), "merge": kind == "merge", "single": kind == "single"})
+        gs.append({"name": n, "labels": sorted(p), "merge": kind in ("merge", "merge+single"), "single": kind in ("single", "merge+single")})
     return gs
 
 
@@ -56,7 +56,7 @@ def one_case(ctx, pred, ref, cfg, groups, src):
     ctx.count("undefined_label" if undefined else "all_defined")
     ctx.count("input." + cfg["input"])
     for g in groups:
-        ctx.count("group." + ("merge" if g["merge"] else "single" if g["single"] else "plain"))
+        ctx.count("group." + ("merge+single" if g["merge"] and g["single"] else "merge" if g["merge"] else "single" if g["single"] else "plain"))
     # model
     mgroups = [{**g, "name": g["name"].lower()} for g in groups]
     mod = E.run_model(ctx, cfg, pred, ref, groups=mgroups)
@@ -150,6 +150,35 @@ def spread_case(rng):
     return pred, ref, groups
 
 
+def set_order_case(rng):
+    """a group whose label list comes back from set() in non-ascending order (half of them looking like a contiguous
+    block when only the first and last element are inspected), with foreign labels of another group in between"""
+    got = gen.set_order_labels(rng, hi=60, deceptive=rng.random() < 0.5)
+    if got is None:
+        return None
+    S, _ = got
+    lo, hi = min(S), max(S)
+    inside = [x for x in range(lo, hi + 1) if x not in S]
+    other = rng.sample(inside, min(len(inside), 2)) if inside else []
+    other += rng.sample([x for x in range(1, 80) if x not in S and x not in other], 1)
+    shape = (rng.randint(7, 11), rng.randint(7, 11))
+    def mk():
+        a = np.zeros(shape, np.uint8)
+        for l in S + other:
+            if rng.random() < 0.85:
+                tmp = np.zeros(shape, np.uint8)
+                gen.put_object(rng, tmp, 1, kind=rng.choice(["box", "line", "L", "voxel"]))
+                a[(tmp == 1)] = l
+        return a
+    ref = mk()
+    pred = ref.copy() if rng.random() < 0.3 else mk()
+    order = list(S)
+    rng.shuffle(order)
+    groups = [{"name": "a", "labels": order, "merge": rng.random() < 0.2, "single": False},
+              {"name": "b", "labels": other, "merge": False, "single": False}]
+    return pred, ref, groups
+
+
 def rand_cfg(rng):
     it = rng.choice(["MATCHED", "UNMATCHED", "SEMANTIC", "SEMANTIC"])
     metrics = ["IOU", "DSC"] + (["RVD"] if rng.random() < 0.5 else []) + (["ASSD"] if rng.random() < 0.3 else [])
@@ -170,7 +199,13 @@ def run_cases(ctx, n, tag):
             ctx.count("spread_group")
             one_case(ctx, pred, ref, E.mk_cfg("MATCHED", ["IOU", "DSC"]), groups, f"{tag}{i}.spread")
             continue
-        if r < 0.16:
+        if r < 0.26:
+            c = set_order_case(rng)
+            if c is not None:
+                ctx.count("set_order_group")
+                one_case(ctx, c[0], c[1], rand_cfg(rng), c[2], f"{tag}{i}.setorder")
+            continue
+        if r < 0.32:
             pred, ref, labels = gen_case(rng)
             dt = rng.choice([np.int16, np.int32, np.int64])
             pred, ref = pred.astype(dt), ref.astype(dt)
